@@ -255,10 +255,14 @@ func (o UnmarshalOptions) unmarshalMap(b []byte, wtyp protowire.Type, mapv proto
 		err = errUnknown
 		switch num {
 		case genid.MapEntry_Key_field_number:
-			key, n, err = o.unmarshalScalar(b, wtyp, keyField)
+			var k protoreflect.Value
+			k, n, err = o.unmarshalScalar(b, wtyp, keyField)
 			if err != nil {
+				// Keep a key seen earlier: a record with another wire type
+				// is skipped as an unknown field.
 				break
 			}
+			key = k
 			haveKey = true
 		case genid.MapEntry_Value_field_number:
 			var v protoreflect.Value
